@@ -1,5 +1,5 @@
 (* C40 -- the link between the generated REPL code and the abstract machine (by computation, on
-   tables), and the refutation witness run on the generated code. *)
+   tables), and regression sessions run on the generated code. *)
 From HyV Require Import State.Repl State.ReplAbstract State.ReplSweep.
 
 (* every tabulated single input from every tabulated start state, and every session of at most three
@@ -8,42 +8,48 @@ From HyV Require Import State.Repl State.ReplAbstract State.ReplSweep.
 Lemma generated_code_implements_step_on_tables : sweep_single = true /\ sweep_sessions 3 = true.
 Proof. split; vm_compute; reflexivity. Qed.
 
-(* the full statement about the history variables, on the abstract machine *)
-Definition no_repeat_full : Prop :=
-  forall out inputs, NoDup (results inputs) -> ~ In VNone (results inputs) ->
-  no_repeat (run_abstract out inputs initial).
-
-(* inputs `1` then `(/ 1 0)`: after the failed input *1 and *2 both hold the result of the first *)
-Definition witness : list input := [IValue (VInt 1); IRunError (VExc "ZeroDivisionError" 0) false].
-
-(* the generated code, run on the witness: *1 = *2 = 1 and *e is the ZeroDivisionError *)
-Definition witness_run : Prop :=
-  match run_session witness (fun _ => None) with
+(* the session that used to repeat a result (hy before 7e4d2e4): inputs `1` then `(/ 1 0)`.
+   On the generated code: *1 = 1, *2 = *3 = None, *e = the ZeroDivisionError. *)
+Definition regression_session : list input := [IValue (VInt 1); IRunError (VExc "ZeroDivisionError" 0) false].
+Definition regression_run : Prop :=
+  match run_session regression_session (fun _ => None) with
   | Some (h, _) =>
       match observe h with
-      | Some o => r_1 o = VInt 1 /\ r_2 o = VInt 1 /\ r_e o = Some (VExc "ZeroDivisionError" 0)
+      | Some o => r_1 o = VInt 1 /\ r_2 o = VNone /\ r_3 o = VNone /\ r_e o = Some (VExc "ZeroDivisionError" 0)
       | None => False
       end
   | None => False
   end.
-Lemma witness_on_generated_code : witness_run.
+Lemma regression_on_generated_code : regression_run.
 Proof. vm_compute. repeat split. Qed.
 
-Lemma no_repeat_refuted : ~ no_repeat_full.
-Proof.
-  intros H.
-  specialize (H (fun _ => None) witness).
-  assert (ND : NoDup (results witness)) by (vm_compute; constructor; [intros []|constructor]).
-  assert (NN : ~ In VNone (results witness)) by (vm_compute; intros [E|[]]; discriminate E).
-  specialize (H ND NN). vm_compute in H.
-  destruct H as [[E|[E _]] _]; [discriminate E | apply E; reflexivity].
-Qed.
+(* a longer one: values, a lexer error, a None, a compile-time error shown as traceback, an incomplete line *)
+Definition regression_session2 : list input :=
+  [IValue (VInt 1); ICompileError (VExc "LexException" 1); IValue (VInt 2); IValue VNone; IIncomplete;
+   IRunError (VExc "NameError" 2) true; ICompileError (VExc "HyMacroExpansionError" 3); IValue (VInt 3)].
+Definition regression_run2 : Prop :=
+  match run_session regression_session2 (fun _ => None) with
+  | Some (h, _) =>
+      match observe h with
+      | Some o => r_1 o = VInt 3 /\ r_2 o = VNone /\ r_3 o = VInt 2 /\ r_e o = Some (VExc "HyMacroExpansionError" 3)
+      | None => False
+      end
+  | None => False
+  end.
+Lemma regression2_on_generated_code : regression_run2.
+Proof. vm_compute. repeat split. Qed.
 
-(* a history that meets the hypotheses of the positive theorems and exercises the shifting *)
-Definition good_history : list input :=
-  [IValue (VInt 1); IIncomplete; IValue (VInt 2); IValue VNone; IValue (VInt 3); IIncomplete; IValue (VInt 4)].
-Definition good_history_meets : Prop :=
-  forallb unfailing good_history = true /\
-  slots_are (run_abstract (fun _ => None) good_history initial) [VInt 4; VInt 3; VNone; VInt 2; VInt 1].
-Example good_history_ok : good_history_meets.
-Proof. split; [reflexivity|]. vm_compute. repeat split. Qed.
+(* a history that meets the hypotheses of the no-repeat theorem although half of its inputs fail *)
+Definition mixed_history : list input :=
+  [IValue (VInt 1); IRunError (VExc "ZeroDivisionError" 0) false; IIncomplete; IValue (VInt 2);
+   ICompileError (VExc "LexException" 1); IValue (VInt 3); IRunError (VExc "NameError" 2) true; IValue (VInt 4)].
+Definition mixed_history_meets : Prop :=
+  NoDup (results mixed_history) /\ ~ In VNone (results mixed_history) /\
+  slots_are (run_abstract (fun _ => None) mixed_history initial) [VInt 4; VInt 3; VInt 2; VInt 1].
+Example mixed_history_ok : mixed_history_meets.
+Proof.
+  split; [|split].
+  - vm_compute. repeat constructor; cbn; intuition discriminate.
+  - vm_compute. intuition discriminate.
+  - vm_compute. repeat split.
+Qed.
